@@ -46,15 +46,16 @@ def rule_key(ctx):
     ok0 = a0[0] == 'call' and mir.method_name(a0[1]) == 'index' and peel(a0[2][0]) == Ks and canon(a0[2][1]) == 'RangeFrom::RangeFrom{start: 1}'
     ctx.check('key', 'record-hash=key[1..]', ok0, f, 'BlockIndexRecord::from(%s, ..)' % canon(a0))
     ctx.check('key', 'record-fields-from-value', a1 == Vs, f, 'second argument is the value buffer')
-    # guard: is_block_index_record(key)
-    g = [cs for cs in b.calls if mir.method_name(cs.name) == 'is_block_index_record']
-    okg = len(g) == 1 and peel(b.op_expr(g[0].args[0])) == Ks
-    facts = b.facts_at(f.bb)
-    held = any(fc[0] == 'cond' and fc[2] is True and peel(fc[1], calls=False)[0] == 'call' and mir.method_name(peel(fc[1], calls=False)[1]) == 'is_block_index_record' for fc in facts)
-    ctx.check('key', 'only-b-keys-become-records', okg and held, f, 'record construction dominated by is_block_index_record(key)')
-    p = prog.one('index::is_block_index_record')
-    ctx.touch(p)
-    ctx.check('key', "prefix-is-b'b'", canon(p.ret_expr()) == '(unwrap(first(a1)) == 98)', p, 'is_block_index_record = %s' % canon(p.ret_expr()))
+    # guard: the key's first byte is b'b' (tested in place or through a private predicate, which is inlined)
+    ks = canon(Ks)
+    held = []
+    for r in util.facts_to_rels(frozenset(('cond', prog.inline(fc[1]), fc[2]) if fc[0] == 'cond' else fc for fc in b.facts_at(f.bb))):
+        c = util.crel(r)
+        m = re.match(r'^unwrap\(first\((.*)\)\) == (\d+)$', c) or re.match(r'^first\((.*)\)\? == (\d+)$', c) or re.match(r'^(.*)\[0\] == (\d+)$', c)
+        if m:
+            held.append((m.group(1), int(m.group(2))))
+    ctx.check('key', 'only-b-keys-become-records', any(k == ks for k, v in held), f, 'record construction dominated by a test of the first key byte: %s' % held)
+    ctx.check('key', "prefix-is-b'b'", any(k == ks and v == 98 for k, v in held), f, "the first key byte is compared with b'b' (98): %s" % held)
     # the iteration visits every entry: while advance() { current(..) }
     adv = [cs for cs in b.calls if mir.method_name(cs.name) == 'advance']
     ctx.check('key', 'full-iteration', len(adv) == 1 and b.loop_depth(adv[0].bb) == 1 and b.dominates(adv[0].bb, cur[0].bb), b, 'while iter.advance() { iter.current(..) }')
